@@ -85,8 +85,11 @@ func (ue *ChfUe) init() {
 		Handler:            ue.RatingMux,
 		MaxRetransmits:     3,
 		RetransmitInterval: time.Second,
-		EnableWatchdog:     true,
-		WatchdogInterval:   5 * time.Second,
+		// Connections live for a single request (at most the 5 s answer timeout): a watchdog
+		// never gets to fire on them, and its goroutine can outlive a connection that is
+		// closed while no answer is pending
+		EnableWatchdog:   false,
+		WatchdogInterval: 5 * time.Second,
 		AuthApplicationID: []*diam.AVP{
 			// Advertise support for credit control application
 			diam.NewAVP(avp.AuthApplicationID, avp.Mbit, 0, datatype.Unsigned32(4)), // RFC 4006
@@ -99,8 +102,11 @@ func (ue *ChfUe) init() {
 		Handler:            ue.AbmfMux,
 		MaxRetransmits:     3,
 		RetransmitInterval: time.Second,
-		EnableWatchdog:     true,
-		WatchdogInterval:   5 * time.Second,
+		// Connections live for a single request (at most the 5 s answer timeout): a watchdog
+		// never gets to fire on them, and its goroutine can outlive a connection that is
+		// closed while no answer is pending
+		EnableWatchdog:   false,
+		WatchdogInterval: 5 * time.Second,
 		AuthApplicationID: []*diam.AVP{
 			// Advertise support for credit control application
 			diam.NewAVP(avp.AuthApplicationID, avp.Mbit, 0, datatype.Unsigned32(4)), // RFC 4006
